@@ -827,6 +827,15 @@ func ruleP20Run(p *Prog, r *Report) {
 		if !isNilConst(retResult(ret, 0)) {
 			// a failure that is returned: must be the read error or the ApplyNow error, non-nil
 			r.check(p.nilnessAt(ret.Block(), retResult(ret, 0), 0) == nnNonNil, rule, key+":failure", p.instrPos(ret), "a returned failure is non-nil", "a failure return may carry a nil error (exit 0 without a document)")
+			// a failure is reported INSTEAD of a document: no print site lies on a way to it
+			// (the error report that follows a failure would be appended to the JSON text)
+			after := ""
+			for _, vi := range prints {
+				if where(vi) == ret.Block() || reachableFrom(where(vi), nil)[ret.Block()] {
+					after = p.instrPos(vi.in)
+				}
+			}
+			r.check(after == "", rule, key+":failure-without-document", p.instrPos(ret), "no document is printed on the way to a failure", "a failure is returned after a JSON document may already have been printed ("+after+"): the error report follows the document on the same output and the exit status is non-zero although the errors were delivered as JSON")
 			continue
 		}
 		n := 0
